@@ -236,10 +236,27 @@ Proof. vm_compute. auto. Qed.
 
 (* wait_for on an active, untriggered variable: the time-out fires and the call is about to return false *)
 Example ex_timed_false :
-  let s := runT (init true [[WaitFor]]) (repeat (0, 0) 6 ++ [(0, 2); (0, 0)]) in
+  let s := runT (init true [[WaitFor]]) (repeat (0, 0) 6 ++ [(0, 2); (0, 0); (0, 0)]) in
   exists l, nth_error (thr s) 0 = Some l /\ cur_op (at_ l) = Some WaitFor /\
             exists r, tstep 0 0 (gl s) l = Some r /\ In (ret_ev 0%Z) (snd r).
 Proof. vm_compute. eexists. split; [reflexivity|]. split; [reflexivity|]. eexists; split; [reflexivity|cbn; auto]. Qed.
+
+(* a time-out that races with trigger(): thread 1 owns triggerLock (between its lock and its store) when thread 0's
+   time-out fires; thread 0 re-acquires the mutex only after the store + notify + unlock, re-evaluates the predicate,
+   finds triggered = true and returns TRUE although its wake-up was a time-out.  (This is why tv_timed_false needs the
+   re-evaluation under the lock: a wait_for that returned false as soon as the time-out is reported would return false
+   here although the trigger happened before it gave up - seeded/C11-3.) *)
+Example ex_timeout_then_true :
+  let s := runT (init true [[WaitFor]; [Trigger]])
+                (repeat (0, 0) 6 ++ repeat (1, 0) 3 ++ [(0, 2)] ++ repeat (1, 0) 3 ++ [(0, 0)]) in
+  pcof (thr s) 0 = W_final /\ triggered (gl s) = true /\ mT (gl s) = Some 0 /\
+  let s' := runT s [(0, 0)] in
+  exists l, nth_error (thr s') 0 = Some l /\ at_ l = W_unlock true true /\
+            exists r, tstep 0 0 (gl s') l = Some r /\ In (ret_ev 1%Z) (snd r).
+Proof.
+  vm_compute. repeat split; auto. eexists. split; [reflexivity|]. split; [reflexivity|].
+  eexists; split; [reflexivity|cbn; auto].
+Qed.
 
 (* waitActivation released by activate *)
 Example ex_waitActivation_returns :
